@@ -742,13 +742,16 @@ func genCfg(r *rand.Rand, i int, pkts int) Cfg {
 	case 2, 8:
 		// several flushers per peer (TUN reader + keepalive callers + UAPI sets) with tiny batches on few Ps: the window
 		// between "visible on the peer's queue" and "locked / on the work queue" is crossed as often as possible
-		c.Flushers = 2 + r.Intn(5)
-		c.TunBatch, c.BindBatch, c.ChunkMax = []int{1, 1, 2}[r.Intn(3)], []int{1, 8}[r.Intn(2)], []int{1, 2, 8}[r.Intn(3)]
-		c.Procs = []int{2, 2, 3, 4, 1}[r.Intn(5)]
-		c.PaceUs = []int{0, 5, 30}[r.Intn(3)]
+		// (measured on a seeded copy: without extra flushers 0/12 runs hit the window, with 4 flushers and 8000
+		// one-packet containers 8..9 of 12, with 20000 containers 12/12)
+		c.Flushers = 3 + r.Intn(4)
+		c.TunBatch, c.BindBatch, c.ChunkMax = 1, []int{1, 8}[r.Intn(2)], []int{1, 1, 2}[r.Intn(3)]
+		c.Procs = []int{2, 2, 3, 1}[r.Intn(4)]
+		c.PaceUs = 0
 		c.BigMix, c.Huge, c.Forged = false, false, 0
-		c.Hogs, c.OneIn = []int{0, 1}[r.Intn(2)], 0
-		c.NIn = 200
+		c.Hogs, c.OneIn = 0, 0
+		c.Peers = 2
+		c.NOut, c.NIn = 4*c.NOut, 100
 	case 4, 10:
 		// the interface goes down and up several times during a flood of large packets on few Ps
 		c.Cycles = 4 + r.Intn(6)
